@@ -174,7 +174,7 @@ func TestC15(t *testing.T) {
 	if os_only_regress() {
 		return
 	}
-	search(t, rec, "history", budget(3000, 160000), 25, func(rt *rapid.T) {
+	search(t, rec, "history", budget(3000, 800000), 25, func(rt *rapid.T) {
 		w := newWorld()
 		fail := func(sig, msg string) {
 			if sig != "" {
